@@ -134,6 +134,10 @@ pub fn check_case(cfg: &Config, corpus: &Corpus, evals: &[(Vec<char>, Vec<u8>)])
             }
         }
     }
+    // the trainer's quantised tag classifiers are exactly what the learners' raw outputs dictate
+    if let Some(v) = check_trace_against_learner(&trace) {
+        return (true, Some(v));
+    }
     // the learner's function: (token, category, class) -> bias, (.., feature) -> weight
     let mut class_of: HashMap<(String, usize, String), usize> = HashMap::new();
     for (tok, cat, cls, tag) in &trace.tag_classes {
